@@ -294,9 +294,32 @@ def register(R: Registry):
         # used modularly (SWCLike.to_swc): the result is an abstract line sequence about which nothing is assumed
         return isinstance(v.get("result"), Opaque)
 
+    COMMENT_LINE = "one-newline-terminated-hash-line-carrying-the-comment-minus-its-leading-blanks"
+
+    def any_comments(v):
+        """second registration: the comment list has symbolic length and abstract strings in it"""
+        return isinstance(v.get("given_comments"), PList)
+
+    def comment_yield(E, v, new, k):
+        """iteration k of the comment loop yields exactly one text: '# ' + comment k minus its leading blanks + newline
+        (a blank comment - whitespace only or empty - may also be written as a bare '#' line)"""
+        if len(new) != 1 or not any_comments(v):
+            return False
+        z = v["given_comments"].get(k).z
+        text = STR.as_id(E, new[0])
+        full = STR.as_id(E, SymStr(["# ", STR.AbsStr(STR.apply(E, z, "lstrip", [], "str")), "\n"]))
+        blank = z3.Or(STR.apply(E, z, "isspace", [], "bool"), z == 0)
+        return z3.Or(text == full, z3.And(blank, text == STR.lit(E, "#\n")))
+
     def post_comments(E, v, o):
         if at_call_site(v):
             return True
+        if any_comments(v):
+            from pyvc.loops import LoopYields
+
+            items = out_items(v)
+            return (items is not None and len(items) >= 1 and isinstance(items[0], LoopYields) and items[0].ordinal == 0 and items[0].labels == [COMMENT_LINE]
+                    and zint(items[0].count) == zint(v["given_comments"].n))
         items, cs = out_items(v), list(v["given_comments"] or [])
         if items is None or len(items) < len(cs):
             return False
@@ -305,6 +328,9 @@ def register(R: Registry):
     def post_header(E, v, o):
         if at_call_site(v):
             return True
+        if any_comments(v):
+            items = out_items(v)
+            return items is not None and len(items) >= 2 and items[1] == "# " + " ".join(col_order(v)) + "\n"
         items, cs = out_items(v), list(v["given_comments"] or [])
         if items is None or len(items) <= len(cs):
             return False
@@ -315,7 +341,10 @@ def register(R: Registry):
 
         if at_call_site(v):
             return True
-        items, cs = out_items(v), list(v["given_comments"] or [])
+        if any_comments(v):
+            items, cs = out_items(v), [None]  # one block for all comment lines
+        else:
+            items, cs = out_items(v), list(v["given_comments"] or [])
         if items is None or len(items) != len(cs) + 2:
             return False  # nothing but the comments, the header and the node rows
         blk = items[-1]
@@ -358,6 +387,37 @@ def register(R: Registry):
         loops={1: dict(invariant=[], yields=[("one-line-per-node-with-the-cells-in-column-order", row_yield)])},
         notes="number of nodes, offset and all column contents symbolic (rows: per-iteration `yields` obligation of the node loop); "
               "comments are concrete small lists (variants) because str methods run natively on concrete strings",
+    )
+
+    # second registration of to_swc: ANY number of ARBITRARY comments (a list of abstract strings of symbolic length, pyvc/strmodel.py);
+    # the comment loop is cut like the node loop, with a per-iteration description of the line it yields
+    def swc_setup_any(extra):
+        inner = swc_setup(None, extra)
+
+        def f(S):
+            d = inner(S)
+            cm = STR.str_list("comments")
+            S.assume(cm.n >= 0)
+            cm.frozen = True
+            d["comments"] = d["given_comments"] = cm
+            return d
+
+        return f
+
+    R.add(
+        f"{IO}:to_swc",
+        prop="C01",
+        variants={"any-number-of-arbitrary-comments": swc_setup_any(None), "any-number-of-arbitrary-comments+one-extra-column": swc_setup_any(["e"])},
+        requires=[("ids-are-positions", ids_are_positions), "offset-non-negative :: id_offset >= 0"],
+        returns=lines_result,
+        ensures=[
+            ("one-newline-terminated-hash-line-per-comment", post_comments),
+            ("column-header-line-follows-the-comments", post_header),
+            ("then-exactly-one-row-per-node-and-nothing-else", post_rows),
+        ],
+        loops={0: dict(invariant=[], yields=[(COMMENT_LINE, comment_yield)]),
+               1: dict(invariant=[], yields=[("one-line-per-node-with-the-cells-in-column-order", row_yield)])},
+        notes="as above, with a comment list of symbolic length holding abstract strings: `c.isspace()` / `c.lstrip()` are uninterpreted in the comment",
     )
 
     # --------------------------------------------------------- SWCLike.to_swc
